@@ -49,6 +49,7 @@ def main():
     proved_now = {o["name"] for o in run.obligations}
     if not a.record:
         missing = sorted(expected - proved_now - {u["obligation"] for u in run.undecided})
+        missing = [m for m in missing if ".raises." not in m or ".exactly_when" in m]
         fun_err = [f for f in run.functions if f["error"]]
         if missing and not fun_err:
             run.errors.append(f"obligations recorded for {a.pid} are no longer generated: {missing[:5]}")
@@ -70,7 +71,11 @@ def main():
         extra=spec.get("extra"),
     )
     if a.record and rc in (0, 2):
-        expected_all[a.pid] = sorted(o["name"] for o in run.obligations if o["status"] == "proved" or o.get("known_finding"))
+        # only contract clauses are pinned: call-site preconditions, invariants and implicit-exception obligations
+        # depend on the shape of the code and may legitimately appear / disappear when it is edited
+        expected_all[a.pid] = sorted(o["name"] for o in run.obligations
+                                     if (o["status"] == "proved" or o.get("known_finding"))
+                                     and o.get("kind") in ("post", "exc", "frame", "lemma", "bounded"))
         with open(exp_path, "w") as f:
             json.dump(expected_all, f, indent=1, sort_keys=True)
         print(f"recorded {len(expected_all[a.pid])} expected obligations for {a.pid}")
